@@ -14,11 +14,11 @@ add("C01", "exploration",
     "small-scope hypothesis (<=3 rows/source, 5-point grid); enumerated threaded cells run one fixed schedule, schedules are exhausted only to delay bound 1-2 for the slice named in the evidence; no real OS processes",
     "bounded exhaustive enumeration of inputs x configurations on the implementation (+ delay-bounded schedule exploration under a controlled scheduler) vs whole-run reference", "graphs")
 add("C02", "model_checking",
-    "Explicit-state breadth-first search over operation histories of the real Context API (set_config of shared / private / untracked options, register of version bumps, same-named classes with another default, other classes, new_context, make, get_array, get_array from a second context, enabling fuzzy matching) on a 3-plugin chain bound to a shared DataDirectory; a state is the history that reaches it (replayed on a fresh context and directory), deduplicated by a canonical state that includes the plugin-cache signature; after every operation the keys must equal those of a brand-new context with the same settings, get_array must equal the rows defined by the current variants/options, the key-change relation must hold, fuzzy requests must return matching stored data and write nothing; keys are recomputed in subprocesses under 3 hash seeds x 2 option insertion orders.",
+    "Explicit-state breadth-first search over operation histories of the real Context API (set_config of shared / private / untracked options, register of version bumps, same-named classes with another default, other classes, new_context, make, get_array, get_array from a second context, enabling fuzzy matching) on a 3-plugin chain bound to a shared DataDirectory; a state is the history that reaches it (replayed on a fresh context and directory), deduplicated by a canonical state that includes the plugin-cache signature; after every operation the keys must equal those of a brand-new context with the same settings, get_array must equal the rows defined by the current variants/options, the key-change relation must hold, fuzzy requests must return matching stored data and write nothing; a context from which another was derived with new_context stays alive and its keys must never change through operations on the derived one; keys are recomputed in subprocesses under 3 hash seeds x 2 option insertion orders.",
     "history depth 4 (thorough 5), one plugin chain, prefix-partitioned BFS (dedup per partition)",
     "explicit-state BFS over API operation histories with canonical-state dedup, every transition executed on the implementation", "histbfs")
 add("C03", "exploration",
-    "Exhaustive enumeration of every sorted interval array (<=3-4 rows) x every law-abiding chunk sequence x dtype x compressor x save-rechunk setting x serial/thread-pool saving x plain/executor/rechunk-on-load reading through the real FileSaver.save_from and backend loader; oracle: rows bit-identical in order, same overall range, contiguous chunks, boundaries equal to the written ones (no rechunk) or in row-free gaps (rechunk), and every metadata field consistent with the files on disk. Thorough additionally explores the completion orders of pool writes under the controlled scheduler.",
+    "Exhaustive enumeration of every sorted interval array (<=3-4 rows) x every law-abiding chunk sequence x dtype x compressor x save-rechunk setting x serial/thread-pool saving x plain/executor/rechunk-on-load reading through the real FileSaver.save_from and backend loader; oracle: rows bit-identical in order, same overall range, contiguous chunks, boundaries equal to the written ones (no rechunk) or in row-free gaps (rechunk), and every metadata field consistent with the files on disk. Wide-gap 4-6-row layouts make one rechunker call / one rechunk-on-load of a stored chunk cut several times. Thorough additionally explores the completion orders of pool writes under the controlled scheduler.",
     "small-scope hypothesis (<=4 rows, 6-point grid); dtype/compressor/executor rotate over inputs in quick; pool writes run under a fixed schedule except in the thorough schedule slice",
     "bounded exhaustive enumeration of inputs x configurations on the implementation vs written data", "smallscope")
 add("C04", "fault_enumeration",
@@ -30,7 +30,7 @@ add("C05", "model_checking",
     "atomicity between scheduling points (mailbox state only touched under its RLock); no condition time-outs or spurious wake-ups; canonical state hashing (cross-checked against stateless exploration at delay bound 1); bounds: <=3 subscribers, <=4-5 messages, capacity <=4",
     "explicit-state exploration of all thread interleavings of the implementation (stateless DFS + state hashing, controlled scheduler)", "vsched")
 add("C06", "model_checking",
-    "Stateless model checking of the real ThreadedMailboxProcessor driven through Context.get_iter under the controlled scheduler: for 153 cells (graph x failing stage {source, plugin, multi-output plugin, loader, saver of target / side output, consumer closing, none} x chunk index x {eager, lazy, worker pool}) every thread schedule with up to B delays is executed; the caller must receive exactly the injected exception, no deadlock state may exist, all pipeline threads must have terminated when the call returns, capacity is respected in every state and fault-free runs return the reference rows. The single-thread processor is checked at every failure position.",
+    "Stateless model checking of the real ThreadedMailboxProcessor driven through Context.get_iter under the controlled scheduler: for 153 cells (graph x failing stage {source, plugin, multi-output plugin, loader, saver of target / side output, consumer closing, none} x chunk index x {eager, lazy, worker pool}) every thread schedule with up to B delays is executed; the caller must receive exactly the injected exception, no deadlock state may exist, all pipeline threads must have terminated when the call returns, capacity is respected in every state and fault-free runs return the reference rows. 26 further failure cells run with capacity 1-2 and 5 chunks so that senders are blocked on full mailboxes when the failure happens. The single-thread processor is checked at every failure position.",
     "schedules exhausted only up to the delay bound (quick: 1 for half the cells, thorough: 1-2); atomic steps = lock / condition / thread / future operations of strax.mailbox and the executors (replaced by scheduler-controlled equivalents); waits never time out",
     "delay-bounded exhaustive exploration of thread interleavings of the implementation (controlled scheduler, stateless DFS, replay of every schedule prefix)", "vsched")
 add("C07", "exploration",
@@ -58,7 +58,7 @@ add("C12", "exploration",
     "violations are injected at the plugin's compute boundary; chunks of 1-2 rows; schedule exploration to delay bound 1 (quick: a rotating 1/12 slice of the threaded cells, thorough: all)",
     "bounded exhaustive enumeration of fault kinds x positions x configurations on the implementation (+ delay-bounded schedule exploration)", "graphs")
 add("C13", "model_checking",
-    "Stateless model checking of the real threaded processor with a consumer that stops pulling after k chunks: every schedule with up to B delays runs until quiescence (no enabled thread); the number of source chunks produced at rest must be the same set for runs of N and 2N chunks (N above the buffer ceiling) and below k + stages x (2 x capacity + 2); in every state no eager mailbox exceeds its capacity; a monitor on Mailbox._can_fetch checks at every sender gate decision that a driving subscriber waits for a message that is not in the mailbox. The bare lazy mailbox is additionally explored over its FULL reachable state space with the same monitor.",
+    "Stateless model checking of the real threaded processor with a consumer that stops pulling after k chunks: every schedule with up to B delays runs until quiescence (no enabled thread); the number of source chunks produced at rest must be the same set for runs of N and 2N chunks (N above the buffer ceiling) and below k + stages x (2 x capacity + 2); in every state no eager mailbox exceeds its intended capacity (the context option, or the own max_messages of the plugin that feeds it - 16 cells have one plugin declaring its own, larger buffer); a monitor on Mailbox._can_fetch checks at every sender gate decision that a driving subscriber waits for a message that is not in the mailbox. The bare lazy mailbox is additionally explored over its FULL reachable state space with the same monitor.",
     "delay bound 1 (2 for chain2) for the processor layer; full state space only for the bare mailbox (<=3-4 messages, <=3 subscribers); worker pools not covered (they disable lazy mode)",
     "delay-bounded exhaustive exploration of thread interleavings to quiescence + explicit-state exploration of the bare mailbox", "vsched")
 add("C14", "exploration",
